@@ -196,7 +196,7 @@ Qed.
 
 Lemma J4_step a b : pstep c g p a b -> J4c a -> J4c b.
 Proof.
-  intros St. destruct St as [t Cq I|t D I|t cl ca done x o t' cl' ca' D Q Hin Hnd Hinc I P Hx Cr Nm E
+  intros St. destruct St as [t Cq I Ev0|t D I Ev0|t cl ca done x o t' cl' ca' D Q Hin Hnd Hinc I P Hx Cr Nm E
                             |t a cl ca done I P|t a ca done I P|t x done Hx I|t done I Cr]; unfold J4c.
   - (* cancel *)
     apply J4_mono; auto.
@@ -513,7 +513,7 @@ Qed.
 
 Lemma J5_step a b : pstep c g p a b -> J5c a -> J5c b.
 Proof.
-  intros St. destruct St as [t Cq I|t D I|t cl ca done x o t' cl' ca' D Q Hin Hnd Hinc I P Hx Cr Nm E
+  intros St. destruct St as [t Cq I Ev0|t D I Ev0|t cl ca done x o t' cl' ca' D Q Hin Hnd Hinc I P Hx Cr Nm E
                             |t a cl ca done I P|t a ca done I P|t x done Hx I|t done I Cr]; unfold J5c.
   - (* cancel *)
     intros [A1 A2 A3 A4]. constructor; auto.
